@@ -14,15 +14,17 @@ MANIFEST_ENTRY = {
             "saturated; the tree checker decides the derivation relation; every run of the nondeterministic LR "
             "automaton over a wf table (which is what each GSS path of the GLR driver is) yields only derivation "
             "trees. An executable Lean model of the GLR driver itself (Model/GLR.lean: GSS, path search, limited "
-            "re-reductions, revisits, shifts) is run on every input (lexical ambiguity included; inputs whose revisit sets have an order the model does not determine are flagged and left to the oracles) and must "
+            "re-reductions, revisits, shifts) is proved sound for every wf table, input and fuel (C01_glr_model_sound: "
+            "a forest answer implies the input is a sentence; GSS invariant 'every node reachable, every link "
+            "replayable'; hypotheses wf and idempotent layout skipping evaluated per table and input) and is run on every input (lexical ambiguity included; inputs whose revisit sets have an order the model does not determine are flagged and left to the oracles) and must "
             "give the implementation's acceptance and exact set of packed alternatives. Per case the "
             "implementation's accept/reject is also compared with the verified oracle, every tree "
             "taken from the forest (all up to a cap, sampled beyond) is checked by the verified checker, and only "
             "parglare.SyntaxError may be raised",
     "note": "trusted: Lean kernel; match/skip tables from the real recognizers; the GLR driver model is tied to "
-            "glr.py by exact correspondence, no theorem is proved about it: the implementation's outputs are judged "
-            "by verified checkers on the explored scope (translation-validation style), so completeness of "
-            "acceptance is decided by oracle evaluation; "
+            "glr.py by exact correspondence; soundness of its acceptance is a theorem, the validity of every tree "
+            "of its forest and completeness of acceptance are not: the implementation's outputs are judged "
+            "by verified checkers on the explored scope (translation-validation style); "
             "rejected sentences on nullable hidden-recursive grammars are the recorded finding F-GLR-1",
     "technique": "Lean 4 proofs of oracle/checker correctness and LR-path soundness + executable GLR driver model in "
                  "exact correspondence + verified checkers run on implementation output",
@@ -30,14 +32,16 @@ MANIFEST_ENTRY = {
 
 PROP = "C01"
 LEVEL = "proof"
-THEOREMS = ["C01_sentence_oracle_correct", "C01_tree_checker_correct", "C01_path_sound", "C01_accept_sound"]
+THEOREMS = ["C01_sentence_oracle_correct", "C01_tree_checker_correct", "C01_path_sound", "C01_accept_sound",
+            "C01_glr_model_sound", "C01_glr_model_sound_on_decoded_data"]
 META = {
     "rule": "cases = (grammar, LALR|SLR, input incl. layout variants); grammars: exhaustive small scope + seeded "
             "random (nullable, hidden recursion, cyclic, lexical overlap at forced rates); non-trivial = sentence "
             "with >= 2 trees or a rejected non-empty input; distinct by (grammar, tables, input)",
     "explanation": "accept/reject vs verified chart oracle; every forest tree (cap 60 + samples) vs verified tree "
                    "checker; exception type; termination within a wall-clock budget",
-    "trusted_base": ["glr.py's GSS driver is validated through verified checkers on its outputs, not modelled"],
+    "trusted_base": ["glr.py's GSS driver: modelled (Model/GLR.lean), tied by exact correspondence of packed forests; "
+                     "its outputs are also validated through verified checkers"],
     "assumptions": ["completeness of acceptance is bounded (explored scope)"],
 }
 
@@ -152,14 +156,16 @@ def run_unit(u):
                 b.add("input", enc_input(num, p, text))
                 qs = b.add("sentence", CHART_FUEL)
                 qd = [b.add("derives", 1, enc_tree(num, t)) for t in trees]
-                checks.append((case, impl, qs, qd, trees, b.add("glr", 4000, 1, 0), impl_glr))
+                checks.append((case, impl, qs, qd, trees, b.add("glr", 4000, 1, 0), impl_glr, b.add("skipidem")))
             out = b.run()
             st["traces"] += len(checks)
             if out[qwf] != "wf 1":
                 res["violations"].append({"kind": "table-not-wf", "case": {"grammar": gtxt, "tables": tname},
                                           "observed": out[qwf]})
-            for case, impl, qs, qd, trees, qg, impl_glr in checks:
+            for case, impl, qs, qd, trees, qg, impl_glr, qi in checks:
                 sent = out[qs]
+                # hypothesis of C01_glr_model_sound on this input
+                bump(st, "glr_sound_hyp_" + ("met" if out[qi] == "skipidem 1" and out[qwf] == "wf 1" else "unmet"))
                 # the GLR driver model (Model/GLR.lean): acceptance and the exact set of packed alternatives
                 mg = parse_glr_reply(out[qg])
                 if isinstance(mg, str) and mg in ("ordersens", "fuel"):
